@@ -53,10 +53,26 @@ def run(chk):
     la = R.impl([R.case_line('file', s) for s in files])
     good = [s for s, l in zip(files, la) if outcome(l)[0] == 'ok']
     mutated = [streams.mutate(rng, s, 2) for s in files]
-    damaged = [s for s, l in zip(files + mutated, la + R.impl([R.case_line('file', s) for s in mutated])) if outcome(l)[0] == 'err'][:400]
+    # every kind of scanner-level rejection too (each has its own error path): bad escapes, invalid code points,
+    # unterminated literals and comments, stray characters, malformed numbers
+    LEX = ["var r = '\\ud800'", 'var s = "\\uDFFF"', 'var s = "\\U00110000"', "var r = '\\400'", 'var s = "\\q"', "var r = '\\x4'", "var r = 'ab'", "var r = ''",
+           'var s = "open', "var r = 'a", 'var s = `open', '/* open', 'var x = #', 'var x = 0x', 'var x = 1e+', 'var x = 1__0', 'var x = 0b2', 'var x = 09', 'var s = "a\nb"', 'var x = @']
+    lexbad = ['package p\n' + e + '\n' for e in LEX] + ['package p\nfunc f() {\n\t' + e + '\n}\n' for e in LEX]
+    rng.shuffle(mutated)
+    pool = lexbad + files + mutated
+    damaged = [s for s, l in zip(pool, R.impl([R.case_line('file', s) for s in pool])) if outcome(l)[0] == 'err'][:400]
+    chk.extra['damaged_lexical'] = len([s for s in damaged if s in lexbad])
     rng = random.Random(chk.seed)
     n = 300 if chk.tier == 'quick' else 5000
     dirs = [gen_dir(rng, good, damaged, chk.tier) for _ in range(n)]
+    # every lexically damaged source once on its own and once beside a good file (each scanner rejection has its own error path)
+    for src_ in lexbad:
+        if src_ not in damaged: continue
+        for extra in ([], [rng.choice(good)]):
+            ents = [{'name': 'bad.go', 'kind': 'file', 'hex': src_.encode().hex(), 'fault': 'damaged', 'src': src_}]
+            for g_ in extra:
+                ents.append({'name': 'good.go', 'kind': 'file', 'hex': g_.encode().hex(), 'src': g_, 'pkg': 'p', 'fault': None})
+            dirs.append((ents, [{k: v for k, v in e.items() if k in ('name', 'kind', 'hex')} for e in ents]))
     cases = [('dir', json.dumps(spec)) for _, spec in dirs]
     lines = [R.case_line(m, s) for m, s in cases]
     a = R.impl(lines, robust=True, extra=['--workdir', os.path.join(R.WORK, 'tmp')])
